@@ -225,7 +225,7 @@ def _lit(d, desc, t, depth, ctx, nullable, kinds, risky, in_obj):
     if name == "String":
         kinds.add("string")
         value = gen_string_value(d, prefix=ctx + "str")
-        if d.bool(0.12) and d.enabled(f"{ctx}str.block_string"):
+        if d.bool(0.12) and not value.endswith('"') and d.enabled(f"{ctx}str.block_string"):
             return '"""' + value.replace('"""', '\\"""') + '"""'
         return gql_string(value)
     if name in desc.enums:
